@@ -2069,6 +2069,10 @@ class TestByTestResult(TestResult):
         """
         super().__init__()
         self._on_test = on_test
+        # A skipped test may be reported without startTest() (Python 3.12.1).
+        self._start_time = None
+        self._status = None
+        self._details = None
 
     def startTest(self, test):
         super().startTest(test)
@@ -2091,6 +2095,7 @@ class TestByTestResult(TestResult):
             tags=tags,
             details=self._details,
         )
+        self._start_time = None
 
     def _err_to_details(self, test, err, details):
         if details:
